@@ -4,10 +4,12 @@ Props/C03.lean — Hummer–Szabo lumped model (`LumpedStateTraj._estimate_marko
 The algebra lives in `Lemmas/HS.lean` (part A, on Mathlib matrices: `HS.Z_ones`, `HS.row_sum`, `HS.stationary`,
 `HS.identity_lumping`, `HS.rownorm_noop`, `HS.positive`); here it is transported to the list-level model.
 
-What is assumed: the Gauss–Jordan routine `Linalg.inverse` is NOT verified.  Instead the theorems take the decidable
-hypothesis `HS.certOk T assign m = true`, which says that for the values the model actually computed
-(`pi = stationary T`, `Z = inverse (1 + 1πᵀ − T)`, `M = inverse (Aᵀ D_π Z A)`) we have `pi.sum = 1`,
-`isInverse (1 + 1πᵀ − T) Z` and `isInverse (Aᵀ D_π Z A) M`.  (`pi T = pi` is checked by `stationary` itself.)
+Nothing is assumed about the two matrix inversions: the Gauss–Jordan routine `Linalg.inverse` is proved correct
+(`Bridge.inverse_correct`, restated here as `inverse_correct`), the vector returned by `Linalg.stationary` is proved
+to be normalised, hence the certificates the driver checks (`HS.certOk`: `pi.sum = 1`,
+`isInverse (1 + 1πᵀ − T) Z`, `isInverse (Aᵀ D_π Z A) M`) always hold (`certificates_hold`).  The hypotheses of the
+theorems are only what the caller guarantees: `T` is a well-formed `n × n` list matrix with rows summing to one,
+`assign` has length `n` and values `< m`.
 -/
 import MsmVerif.Lemmas.HS
 
@@ -40,21 +42,44 @@ theorem aggregation (assign : List ℕ) (m i : ℕ) (hi : i < assign.length) (hl
 
 example : ((aggrL [0, 0, 1] 2).getD 2 []) = [0, 1] := by decide +kernel
 
+/-- Gauss–Jordan is correct: whenever `Linalg.inverse X` returns `Z` for a well-formed `n × n` matrix `X`, `Z` is
+well-formed, passes the certificate check `isInverse X Z` and is a two-sided inverse (`X Z = 1 = Z X`). -/
+theorem inverse_correct {n : ℕ} {X Z : Mat} (hX : WF n n X) (hZ : inverse X = some Z) :
+    WF n n Z ∧ isInverse X Z = true ∧
+      toMatrix n n X * toMatrix n n Z = 1 ∧ toMatrix n n Z * toMatrix n n X = 1 :=
+  ⟨(Bridge.inverse_correct hX hZ).1, isInverse_inverse hX hZ, (Bridge.inverse_correct hX hZ).2⟩
+
+example : WF 2 2 [[2, 1], [1, 1]] ∧ inverse [[2, 1], [1, 1]] = some [[1, -1], [-1, 2]] := by
+  unfold WF; decide +kernel
+
+/-- The micro stationary vector computed by `Linalg.stationary` has length `n`, satisfies `π T = π` and sums to one. -/
+theorem stationary_correct {n : ℕ} {T : Mat} {pi : Vec} (hT : WF n n T) (h : Linalg.stationary T = some pi) :
+    pi.length = n ∧ vecMat pi T = pi ∧ pi.sum = 1 :=
+  ⟨(stationary_spec hT h).2.1, (stationary_spec hT h).2.2, stationary_sum hT h⟩
+
+example : Linalg.stationary [[1/2, 1/2], [1/4, 3/4]] = some [1/3, 2/3] := by decide +kernel
+
+/-- The certificates checked by the driver (`pi.sum = 1`, both `inverse` results are true inverses) hold on every
+well-formed input. -/
+theorem certificates_hold {n : ℕ} {T : Mat} {assign : List ℕ} (m : ℕ) (hT : WF n n T) (hlen : assign.length = n) :
+    certOk T assign m = true :=
+  certOk_of_wf m hT hlen
+
 /-- **Projection formula.**  If `hsProject T assign m positive = some R` for a well-formed `n × n` matrix `T` whose
-rows sum to one, `assign` of length `n` with all values `< m`, and the certificates hold (`certOk`), then the
+rows sum to one, `assign` of length `n` with all values `< m`, then the
 intermediate values `pi`, `Z`, `M` of the model satisfy all hypotheses of part A (`HS.Setup`: `T 1 = 1`, `π T = π`,
 `Σ π = 1`, `(1 + 1πᵀ − T) Z = 1`, `(Aᵀ D_π Z A) M = 1`), `R` is a well-formed `m × m` matrix and
 `R = rowNormalize (clip? (1 + 1π_Aᵀ − M D_{π_A}))` as Mathlib matrices, where `π_A = Aᵀ π`. -/
 theorem model_formula {n m : ℕ} {T : Mat} {assign : List ℕ} {positive : Bool} {R : Mat}
     (hT : WF n n T) (hsum : ∀ row ∈ T, row.sum = 1) (hlen : assign.length = n) (hlt : ∀ s ∈ assign, s < m)
-    (hc : certOk T assign m = true) (h : hsProject T assign m positive = some R) :
+    (h : hsProject T assign m positive = some R) :
     ∃ pi Z M, Linalg.stationary T = some pi ∧ inverse (kMatL T pi) = some Z ∧
       inverse (nMatL pi assign m Z) = some M ∧
       Setup (toMatrix n n T) (toVec n pi) (assignFn assign hlen hlt) (toMatrix n n Z) (toMatrix m m M) ∧
       WF m m R ∧
       toMatrix m m R = rowNormalize (clipIfM positive
         (hs (toMatrix m m M) (lump (assignFn assign hlen hlt) (toVec n pi)))) := by
-  obtain ⟨pi, Z, M, hpi, hZ, hM, -, -, hm, wM, hR, hS, -, hhs⟩ := model_core hT hsum hlen hlt hc h
+  obtain ⟨pi, Z, M, hpi, hZ, hM, -, -, hm, wM, hR, hS, -, hhs⟩ := model_core hT hsum hlen hlt h
   have wH := wf_hsL hm wM (length_lumpL pi assign m)
   refine ⟨pi, Z, M, hpi, hZ, hM, hS, ?_, ?_⟩
   · rw [hR]; exact wf_rowNormalizeQ (wf_clipIf wH _)
@@ -64,14 +89,14 @@ theorem model_formula {n m : ℕ} {T : Mat} {assign : List ℕ} {positive : Bool
 `1 + 1π_Aᵀ − M D_{π_A}` (as a list matrix `HS.hsL`, and as a Mathlib matrix `HS.hs`). -/
 theorem model_formula_unclipped {n m : ℕ} {T : Mat} {assign : List ℕ} {R : Mat}
     (hT : WF n n T) (hsum : ∀ row ∈ T, row.sum = 1) (hlen : assign.length = n) (hlt : ∀ s ∈ assign, s < m)
-    (hc : certOk T assign m = true) (h : hsProject T assign m false = some R) :
+    (h : hsProject T assign m false = some R) :
     ∃ pi Z M, Linalg.stationary T = some pi ∧ inverse (kMatL T pi) = some Z ∧
       inverse (nMatL pi assign m Z) = some M ∧
       Setup (toMatrix n n T) (toVec n pi) (assignFn assign hlen hlt) (toMatrix n n Z) (toMatrix m m M) ∧
       WF m m R ∧ R = hsL M (lumpL pi assign m) m ∧
       toVec m (lumpL pi assign m) = lump (assignFn assign hlen hlt) (toVec n pi) ∧
       toMatrix m m R = hs (toMatrix m m M) (lump (assignFn assign hlen hlt) (toVec n pi)) := by
-  obtain ⟨pi, Z, M, hpi, hZ, hM, -, -, hm, wM, hR, hS, hl, hhs⟩ := model_core hT hsum hlen hlt hc h
+  obtain ⟨pi, Z, M, hpi, hZ, hM, -, -, hm, wM, hR, hS, hl, hhs⟩ := model_core hT hsum hlen hlt h
   have wH := wf_hsL hm wM (length_lumpL pi assign m)
   have hrows : ∀ row ∈ hsL M (lumpL pi assign m) m, row.sum = 1 :=
     rowSums_of_mulVec_one wH (by rw [hhs]; exact row_sum hS)
@@ -82,19 +107,19 @@ theorem model_formula_unclipped {n m : ℕ} {T : Mat} {assign : List ℕ} {R : M
 /-- Without clipping, every row of the lumped transition matrix sums to one (and it is `m × m`). -/
 theorem rows_sum_one {n m : ℕ} {T : Mat} {assign : List ℕ} {R : Mat}
     (hT : WF n n T) (hsum : ∀ row ∈ T, row.sum = 1) (hlen : assign.length = n) (hlt : ∀ s ∈ assign, s < m)
-    (hc : certOk T assign m = true) (h : hsProject T assign m false = some R) :
+    (h : hsProject T assign m false = some R) :
     WF m m R ∧ ∀ row ∈ R, row.sum = 1 := by
-  obtain ⟨pi, Z, M, -, -, -, hS, wR, -, -, hhs⟩ := model_formula_unclipped hT hsum hlen hlt hc h
+  obtain ⟨pi, Z, M, -, -, -, hS, wR, -, -, hhs⟩ := model_formula_unclipped hT hsum hlen hlt h
   exact ⟨wR, rowSums_of_mulVec_one wR (by rw [hhs]; exact row_sum hS)⟩
 
 /-- Without clipping, the lumped populations `π_A` (`HS.lumpL`: per-macrostate sums of the micro stationary vector)
 are a probability vector that is stationary for the lumped matrix: `π_A R = π_A`, `Σ π_A = 1`. -/
 theorem lumped_stationary {n m : ℕ} {T : Mat} {assign : List ℕ} {R : Mat}
     (hT : WF n n T) (hsum : ∀ row ∈ T, row.sum = 1) (hlen : assign.length = n) (hlt : ∀ s ∈ assign, s < m)
-    (hc : certOk T assign m = true) (h : hsProject T assign m false = some R) :
+    (h : hsProject T assign m false = some R) :
     ∃ pi, Linalg.stationary T = some pi ∧
       vecMat (lumpL pi assign m) R = lumpL pi assign m ∧ (lumpL pi assign m).sum = 1 := by
-  obtain ⟨pi, Z, M, hpi, -, -, hS, wR, -, hl, hhs⟩ := model_formula_unclipped hT hsum hlen hlt hc h
+  obtain ⟨pi, Z, M, hpi, -, -, hS, wR, -, hl, hhs⟩ := model_formula_unclipped hT hsum hlen hlt h
   have hlenL := length_lumpL pi assign m
   have hm : 0 < m := by
     obtain ⟨hn, -, -⟩ := stationary_spec hT hpi
@@ -115,14 +140,27 @@ theorem positive_entries {T : Mat} {assign : List ℕ} {m : ℕ} {R : Mat}
   rw [hR]
   exact HS.positive _
 
+/-- With `positive = true` on a row-stochastic input every row of the result sums to one (no zero rows can occur:
+the un-clipped rows sum to one, so the clipped rows sum to at least one) and all entries are non-negative. -/
+theorem positive_rows_sum_one {n m : ℕ} {T : Mat} {assign : List ℕ} {R : Mat}
+    (hT : WF n n T) (hsum : ∀ row ∈ T, row.sum = 1) (hlen : assign.length = n) (hlt : ∀ s ∈ assign, s < m)
+    (h : hsProject T assign m true = some R) :
+    WF m m R ∧ ∀ row ∈ R, (∀ x ∈ row, 0 ≤ x) ∧ row.sum = 1 := by
+  obtain ⟨pi, Z, M, -, -, -, -, -, hm, wM, hR, hS, -, hhs⟩ := model_core hT hsum hlen hlt h
+  have wH := wf_hsL hm wM (length_lumpL pi assign m)
+  have hrows : ∀ row ∈ hsL M (lumpL pi assign m) m, row.sum = 1 :=
+    rowSums_of_mulVec_one wH (by rw [hhs]; exact row_sum hS)
+  rw [hR]
+  exact ⟨wf_rowNormalizeQ (wf_clipIf wH _), positive_of_rowSums _ hrows⟩
+
 /-- Relabelling: if `assign` is injective (a permutation of `0..n-1`, `m = n`), the lumped matrix is the micro
 matrix with relabelled states: `R[assign[i]][assign[j]] = T[i][j]`. -/
 theorem relabel_lumping {n : ℕ} {T : Mat} {assign : List ℕ} {R : Mat}
     (hT : WF n n T) (hsum : ∀ row ∈ T, row.sum = 1) (hlen : assign.length = n) (hlt : ∀ s ∈ assign, s < n)
     (hnd : assign.Nodup)
-    (hc : certOk T assign n = true) (h : hsProject T assign n false = some R) :
+    (h : hsProject T assign n false = some R) :
     ∀ i j, i < n → j < n → entry R (assign.getD i 0) (assign.getD j 0) = entry T i j := by
-  obtain ⟨pi, Z, M, -, -, -, hS, -, -, -, hhs⟩ := model_formula_unclipped hT hsum hlen hlt hc h
+  obtain ⟨pi, Z, M, -, -, -, hS, -, -, -, hhs⟩ := model_formula_unclipped hT hsum hlen hlt h
   have hinj : Function.Injective (assignFn assign hlen hlt) := by
     intro a b hab
     have := congrArg Fin.val hab
@@ -140,12 +178,36 @@ theorem relabel_lumping {n : ℕ} {T : Mat} {assign : List ℕ} {R : Mat}
 /-- Identity lumping (`assign = [0, …, n-1]`) returns the micro transition matrix itself. -/
 theorem identity_lumping {n : ℕ} {T : Mat} {R : Mat}
     (hT : WF n n T) (hsum : ∀ row ∈ T, row.sum = 1)
-    (hc : certOk T (List.range n) n = true) (h : hsProject T (List.range n) n false = some R) : R = T := by
+    (h : hsProject T (List.range n) n false = some R) : R = T := by
   have hlt : ∀ s ∈ List.range n, s < n := fun s hs => List.mem_range.mp hs
-  have wR := (rows_sum_one hT hsum List.length_range hlt hc h).1
+  have wR := (rows_sum_one hT hsum List.length_range hlt h).1
   apply WF.ext wR hT
   intro i j hi hj
-  have := relabel_lumping hT hsum List.length_range hlt List.nodup_range hc h i j hi hj
+  have := relabel_lumping hT hsum List.length_range hlt List.nodup_range h i j hi hj
   simpa [List.getD_eq_getElem?_getD, hi, hj] using this
+
+/-! ### non-vacuity: concrete inputs satisfying all hypotheses -/
+
+/-- 3 microstates lumped into 2 macrostates: all hypotheses of `model_formula`, `rows_sum_one`, `lumped_stationary` hold -/
+example :
+    let T : Mat := [[1/2, 1/4, 1/4], [1/4, 1/2, 1/4], [1/3, 1/3, 1/3]]
+    WF 3 3 T ∧ (∀ row ∈ T, row.sum = 1) ∧ [0, 0, 1].length = 3 ∧ (∀ s ∈ [0, 0, 1], s < 2) ∧
+      hsProject T [0, 0, 1] 2 false = some [[3/4, 1/4], [2/3, 1/3]] := by
+  unfold WF; decide +kernel
+
+/-- a cyclic 3-state chain: the un-clipped projection has a negative entry, clipping matters (`positive_entries`) -/
+example :
+    let T : Mat := [[0, 1, 0], [0, 0, 1], [1, 0, 0]]
+    hsProject T [0, 0, 1] 2 false = some [[1/3, 2/3], [4/3, -1/3]] ∧
+      hsProject T [0, 0, 1] 2 true = some [[1/3, 2/3], [1, 0]] := by
+  decide +kernel
+
+/-- a relabelling (`relabel_lumping`) and the identity lumping (`identity_lumping`) -/
+example :
+    let T : Mat := [[1/2, 1/2], [1/4, 3/4]]
+    WF 2 2 T ∧ (∀ row ∈ T, row.sum = 1) ∧ [1, 0].Nodup ∧
+      hsProject T [1, 0] 2 false = some [[3/4, 1/4], [1/2, 1/2]] ∧
+      hsProject T (List.range 2) 2 false = some T := by
+  unfold WF; decide +kernel
 
 end MsmVerif.C03
